@@ -55,6 +55,18 @@ func c10simPolicy(r *core.Rand, version int) *world.PolicySpec {
 		mainMembers = pick(r.Range(1, 2))
 	}
 	t.Rules = append(t.Rules, world.RuleSpec{Name: "protect-main", Patterns: []string{"git:" + mainRef}, Principals: mainMembers, Threshold: 1})
+	if r.Chance(0.4) {
+		// the branch rule delegates to a rule file that knows nothing about files
+		var signer int
+		for _, d := range devs {
+			if id(d) == mainMembers[0] {
+				signer = d
+			}
+		}
+		pol.Files["protect-main"] = &world.RuleFileSpec{Version: 1, Signers: []int{signer},
+			Principals: []world.PrincipalSpec{world.KeyPrincipal(outsiderKey)},
+			Rules:      []world.RuleSpec{{Name: "main-delegates", Patterns: []string{"git:" + mainRef}, Principals: []string{id(outsiderKey)}, Threshold: 1}}}
+	}
 	if r.Chance(0.75) {
 		n := r.Range(1, 2)
 		t.Rules = append(t.Rules, world.RuleSpec{Name: "protect-exact", Patterns: []string{"file:cfg/prod.key"}, Principals: pick(r.Range(n, 3)), Threshold: n})
